@@ -497,7 +497,8 @@ def rule_R3(ctx, repo):
                 else:
                     ctx.check(r, "R3", c, "returns True exactly when the file at the key exists",
                               "does not return the truth value of the existence probe (inverted or constant)", ctx.loc(dcls.module, fn))
-    rule_R3_fields(ctx, repo, reg_pos)
+    record_roundtrip(ctx, repo)
+    rule_R3_fields(_SoftCtx(ctx, repo), repo, reg_pos)
     return templates
 
 
@@ -508,6 +509,131 @@ def wrapper_calls(repo, module, fn):
         if sym is not None and sym.kind == "class" and sym.target.name == "_PredictionsWrapper":
             out.append((c, sym.target))
     return out
+
+
+_ROUNDTRIP = {}
+
+
+class _SoftCtx:
+    """Context wrapper for the syntactic record-field rules: when the interpreted round trip of a results class was decided,
+    an unfamiliar code shape in that class is not an UNDECIDED of the property (the semantic rule already judged it)."""
+
+    def __init__(self, ctx, repo):
+        self._ctx, self._repo = ctx, repo
+
+    def __getattr__(self, name):
+        return getattr(self._ctx, name)
+
+    def _decided(self, construct):
+        cname = construct.split(".")[0].split(":")[0]
+        return _ROUNDTRIP.get((id(self._repo), cname), False)
+
+    def undecided(self, rule, construct, why, loc=None):
+        if self._decided(construct):
+            self._ctx.info("not compared syntactically (%s): %s" % (construct, why))
+            return
+        self._ctx.undecided(rule, construct, why, loc)
+
+    def check(self, cond, rule, construct, ok_detail, bad_detail, loc=None, witness=None):
+        if cond is None and self._decided(construct):
+            self._ctx.info("not compared syntactically (%s): %s" % (construct, bad_detail))
+            return None
+        return self._ctx.check(cond, rule, construct, ok_detail, bad_detail, loc, witness)
+
+
+def record_roundtrip(ctx, repo):
+    """R3 by interpretation: two records (train and test part of one fold, different contents) are stored through the
+    interpreted ``save_predictions`` and read back through the interpreted ``load_predictions`` of each results class;
+    every field of what is read back must be what was stored under that (strategy, dataset, fold, part).
+    Sets _ROUNDTRIP[class] = True when the round trip was decided (the syntactic field rules then only add detail)."""
+    from ._c18_mini import Interp, PyRaise, Undecided as U
+    from . import _c18_models as M
+    wcls = repo.cls(BASE + ":_PredictionsWrapper")
+    winit = wcls.methods.get("__init__")
+    fields = astq.param_names(winit, skip_self=True) if winit else []
+    key = id(repo)
+    for cname in ("HDDResults", "RAMResults"):
+        cls = repo.cls(RESULTS + ":" + cname)
+        _ROUNDTRIP[(key, cname)] = False
+        tag = "%s:record-roundtrip" % cname
+        loc = ctx.loc(cls.module, cls.node)
+        vfs = M.VFS()
+        ext = dict(M.make_externals(vfs))
+        made = []
+
+        def _wrapper(interp, args, kwargs, node, made=made):
+            inst = _Instance(repo, wcls, {})
+            interp.call_function(wcls.module, winit, [inst] + list(args), kwargs, 1)
+            made.append(inst)
+            return inst
+
+        ext["sktime.benchmarking.base._PredictionsWrapper"] = _wrapper
+        ext["os.path.exists"] = lambda i, a, k, n: True
+        it = Interp(repo, ext, M.to_float, M.str_hook)
+        it.vfs = vfs
+        me = _Instance(repo, cls, {"_path": "/res", "strategy_names": [], "dataset_names": [], "cv": None, "results": {}})
+
+        def rec(part):
+            n = 3 if part == "train" else 2
+            d = {"strategy_name": "«s»", "dataset_name": "«d»", "cv_fold": 0, "train_or_test": part,
+                 "index": M.ArrV([M.Num("%s_i%d" % (part, k)) for k in range(n)]),
+                 "y_true": M.ArrV([M.Num("%s_t%d" % (part, k)) for k in range(n)]),
+                 "y_pred": M.ArrV([M.Num("%s_p%d" % (part, k)) for k in range(n)]),
+                 "y_proba": M.ArrV([M.Num("%s_q%d" % (part, k)) for k in range(n)])}
+            for t in ("fit_estimator_start_time", "fit_estimator_end_time", "predict_estimator_start_time", "predict_estimator_end_time"):
+                d[t] = "«%s_%s»" % (part, t)
+            return d
+
+        def norm(v):
+            if isinstance(v, (M.ArrV, M.SeriesV)):
+                return [norm(x) for x in v.data]
+            if isinstance(v, list):
+                return [norm(x) for x in v]
+            if isinstance(v, M.Num):
+                return v.name
+            if M.is_tok(v):
+                return v[1:-1]
+            return v
+
+        try:
+            save = repo.lookup_method(cls, "save_predictions")
+            load = repo.lookup_method(cls, "load_predictions")
+            stored = {}
+            for part in ("train", "test"):
+                r = rec(part)
+                stored[part] = r
+                it.call_function(save[0].module, save[1], [me], dict(r))
+            got = {}
+            for part in ("train", "test"):
+                out = it.call_function(load[0].module, load[1], [me], {"cv_fold": 0, "train_or_test": part})
+                got[part] = out
+        except U as e:
+            ctx.info("%s not interpretable: %s" % (tag, e))
+            continue
+        except PyRaise as e:
+            ctx.violation("R3", tag, "storing two records and reading them back raises %s" % (e.exc,), loc)
+            _ROUNDTRIP[(key, cname)] = True
+            continue
+        _ROUNDTRIP[(key, cname)] = True
+        for part in ("train", "test"):
+            out = got[part]
+            if not (isinstance(out, list) and len(out) == 1 and isinstance(out[0], _Instance)):
+                ctx.violation("R3", "%s[%s]:count" % (tag, part), "after one (strategy, data set) was stored, load_predictions yields %s record(s) for the "
+                              "%s part, expected exactly one" % (len(out) if isinstance(out, list) else "?", part), loc)
+                continue
+            w = out[0].attrs
+            for f in fields:
+                if f == "y_proba" and cname == "HDDResults":
+                    continue  # the disk store does not persist probabilities (documented TODO in the code)
+                want = norm(stored[part].get(f))
+                have = norm(w.get(f))
+                c = "%s[%s]:%s" % (tag, part, f)
+                if have == want:
+                    ctx.ok("R3", c, "read back what was stored", loc)
+                else:
+                    other = [p2 for p2 in stored for f2 in fields if norm(stored[p2].get(f2)) == have and have is not None]
+                    ctx.violation("R3", c, "stored %s = %s for (s, d, fold 0, %s) but load_predictions returns %s%s" % (
+                        f, want, part, have, " (that is what was stored for the %s part / another field)" % other[0] if other else ""), loc)
 
 
 def memo_lookup(e):
@@ -760,23 +886,56 @@ def analyse_iter(ctx, repo):
     mod = cls.module
     fn = repo.func(ORCH, "Orchestrator._iter")
     loc = ctx.loc(mod, fn)
-    ys = [n for n in astq.walk_no_nested(fn) if isinstance(n, (ast.Yield, ast.YieldFrom))]
-    if len(ys) != 1 or not isinstance(ys[0], ast.Yield) or not isinstance(ys[0].value, ast.Tuple):
-        ctx.undecided("R4", "Orchestrator._iter:yield", "expected exactly one `yield (tuple)`, found %d yield(s)" % len(ys), loc)
+    # the generator may delegate its inner loops to helper generators (``yield from self._iter_folds(...)``): the loop
+    # nest is flattened -- ``levels`` = [(function, environment of its parameters in terms of the outer levels, node)]
+    levels = []
+    cur_fn, cur_env = fn, {}
+    y = None
+    for _depth in range(4):
+        ys = [n for n in astq.walk_no_nested(cur_fn) if isinstance(n, (ast.Yield, ast.YieldFrom))]
+        if len(ys) != 1:
+            break
+        node = ys[0]
+        if isinstance(node, ast.Yield):
+            levels.append((cur_fn, cur_env, node))
+            y = node
+            break
+        call = node.value
+        h = repo.lookup_method(cls, call.func.attr) if isinstance(call, ast.Call) and self_call(call) else None
+        b = astq.bind_call(h[1], call, skip_self=not h[0].is_static(call.func.attr)) if h else None
+        if h is None or b is None or any(k in b for k in ("*", "**", "!unknown")):
+            break
+        levels.append((cur_fn, cur_env, node))
+        env_here = S.env_at(cur_fn, node)
+        nxt = {pn: S.subst(S.subst(v, env_here), cur_env) for pn, v in b.items() if isinstance(v, ast.AST)}
+        for pn, dv in astq.param_defaults(h[1]).items():
+            nxt.setdefault(pn, dv)
+        cur_fn, cur_env = h[1], nxt
+    if y is None or not isinstance(y.value, ast.Tuple):
+        ctx.undecided("R4", "Orchestrator._iter:yield", "expected exactly one `yield (tuple)` (possibly behind `yield from self.<helper>(...)`)", loc)
         return None
-    y = ys[0]
-    chain = astq.enclosing_stmts(fn, y)
+    fn_y, env_y = levels[-1][0], levels[-1][1]
+
+    def res(level_fn, level_env, expr, at):
+        return S.subst(S.resolve_at(level_fn, expr, at), level_env)
+
+    chain = []
+    for lf, le, node in levels:
+        ch = astq.enclosing_stmts(lf, node)
+        chain.extend((st, lf, le) for st in (ch[:-1] if node is not y else ch))
+    owner = {id(st): (lf, le) for st, lf, le in chain}
+    chain = [st for st, _, _ in chain]
     loops = [st for st in chain if isinstance(st, (ast.For, ast.While))]
     conds = [st for st in chain[:-1] if not isinstance(st, ast.For)]
     ctx.check(not conds, "R4", "Orchestrator._iter:yield-unconditional", "the yield is executed for every element of the loop nest",
               "the yield is nested in %s: some (task, strategy, fold) combinations are never produced"
               % ", ".join(type(c).__name__.lower() for c in conds), ctx.loc(mod, y))
-    exits = [n for n in astq.walk_no_nested(fn) if isinstance(n, (ast.Break, ast.Continue, ast.Return))]
+    exits = [n for lf, _, _ in levels for n in astq.walk_no_nested(lf) if isinstance(n, (ast.Break, ast.Continue, ast.Return))]
     ctx.check(not exits, "R4", "Orchestrator._iter:no-early-exit", "no break/continue/return in the loop nest",
               "%s at line %s cuts the product short" % (type(exits[0]).__name__.lower() if exits else "", exits[0].lineno if exits else ""),
               ctx.loc(mod, exits[0]) if exits else loc)
     ident = ctor_identity_attrs(cls)
-    elts = [S.resolve_at(fn, e, y) for e in y.value.elts]
+    elts = [res(fn_y, env_y, e, y) for e in y.value.elts]
     roles = {}
     zip_src = None
     enum_src = None
@@ -836,12 +995,18 @@ def analyse_iter(ctx, repo):
         inner = arg.args[0] if arg is not None and S.is_marker(arg, S.PHI) else arg
         from_list = (inner is not None and S.is_marker(inner, S.ITER) and astq.is_self_attr(inner.args[0])
                      and ident.get(inner.args[0].attr) == "strategies")
-        clones = [k for k in astq.calls(fn) if (repo.resolve_expr(mod, k.func) or None) is not None
+        clones = [k for lf, _, _ in levels for k in astq.calls(lf) if (repo.resolve_expr(mod, k.func) or None) is not None
                   and repo.resolve_expr(mod, k.func).dotted == "sklearn.base.clone"]
         if not from_list or len(clones) != 1:
             ctx.undecided("R4", c, "clone argument not recognised: %s (%d clone calls)" % (astq.canon(e)[:80], len(clones)), ctx.loc(mod, y))
         else:
-            cl_chain = [st for st in astq.enclosing_stmts(fn, clones[0]) if isinstance(st, (ast.For, ast.While))]
+            cl_chain = []
+            for lf, le, node in levels:
+                inside = any(n is clones[0] for n in ast.walk(lf))
+                ch = astq.enclosing_stmts(lf, clones[0] if inside else node)
+                cl_chain.extend(st for st in ch if isinstance(st, (ast.For, ast.While)))
+                if inside:
+                    break
             same = len(cl_chain) == len(loops) and all(a is b for a, b in zip(cl_chain, loops))
             ctx.check(same, "R4", c, "fitted object = clone(strategy) made inside the innermost (fold) loop",
                       "clone() is executed in loop depth %d but the tuple is yielded in depth %d: the same object is handed out "
@@ -851,9 +1016,9 @@ def analyse_iter(ctx, repo):
     ok = None
     if len(loops) == 3 and all(isinstance(l, ast.For) for l in loops) and zip_src is not None and enum_src is not None:
         outer, mid, inner = loops
-        e_out = S.resolve_at(fn, outer.iter, outer.iter)
-        e_mid = S.resolve_at(fn, mid.iter, mid.iter)
-        e_in = S.resolve_at(fn, inner.iter, inner.iter)
+        e_out = res(owner[id(outer)][0], owner[id(outer)][1], outer.iter, outer.iter)
+        e_mid = res(owner[id(mid)][0], owner[id(mid)][1], mid.iter, mid.iter)
+        e_in = res(owner[id(inner)][0], owner[id(inner)][1], inner.iter, inner.iter)
         ok = (astq.canon(e_out) == astq.canon(zip_src) and len(zip_src.args) == 2
               and [ident.get(a.attr) for a in zip_src.args] == ["tasks", "datasets"]
               and astq.is_self_attr(e_mid) and ident.get(e_mid.attr) == "strategies"
@@ -973,6 +1138,63 @@ class Consumer:
                 if astq.is_self_attr(recv, attr="results"):
                     out.append((c, c.func.attr))
         return out
+
+    def store_sites(self):
+        """Every place of this method where a record is stored: direct ``self.results.save_*`` calls and calls of a
+        helper method of the class whose body stores unconditionally (the helper is inlined: its arguments are rewritten over
+        the caller's terms).  -> list of (site call in this method, results method, closed call, {param: closed arg}, helper or None);
+        second value: helpers that store but cannot be inlined."""
+        sites, opaque = [], []
+        for c, m in self.results_calls():
+            if m in ("save_predictions", "save_fitted_strategy"):
+                args = [self.sub(a, c) for a in c.args]
+                kws = [ast.keyword(arg=k.arg, value=self.sub(k.value, c)) for k in c.keywords]
+                closed = ast.Call(func=c.func, args=args, keywords=kws)
+                sites.append((c, m, closed, None))
+        for c in astq.calls(self.fn):
+            if not self_call(c):
+                continue
+            h = self.repo.lookup_method(self.cls, c.func.attr)
+            if h is None or h[1] is self.fn:
+                continue
+            hfn = h[1]
+            inner = []
+            for sc in astq.calls(hfn):
+                if isinstance(sc.func, ast.Attribute) and sc.func.attr in ("save_predictions", "save_fitted_strategy"):
+                    try:
+                        recv = S.resolve_at(hfn, sc.func.value, sc)
+                    except ValueError:
+                        continue
+                    if astq.is_self_attr(recv, attr="results"):
+                        inner.append(sc)
+            if not inner:
+                continue
+            b = astq.bind_call(hfn, c, skip_self=not h[0].is_static(c.func.attr))
+            hg = CFG(hfn)
+            ok = b is not None and not any(k in b for k in ("*", "**", "!unknown"))
+            if ok:
+                try:
+                    henv = {pn: self.sub(v, c) for pn, v in b.items() if isinstance(v, ast.AST)}
+                except ValueError:
+                    ok = False
+            if ok:
+                for pn, dv in astq.param_defaults(hfn).items():
+                    henv.setdefault(pn, dv)
+                for sc in inner:
+                    node = hg.node_of(sc)
+                    if node is None or not hg.must_pass(lambda n, node=node: n is node):
+                        ok = False
+            if not ok:
+                opaque.append(c.func.attr)
+                continue
+            for sc in inner:
+                env = S.env_at(hfn, sc)
+                args = [S.subst(S.subst(a, env), henv) for a in sc.args]
+                kws = [ast.keyword(arg=k.arg, value=S.subst(S.subst(k.value, env), henv)) for k in sc.keywords]
+                closed = ast.Call(func=ast.Attribute(value=ast.Attribute(value=ast.Name(id="self", ctx=ast.Load()), attr="results", ctx=ast.Load()),
+                                                     attr=sc.func.attr, ctx=ast.Load()), args=args, keywords=kws)
+                sites.append((c, sc.func.attr, closed, c.func.attr))
+        return sites, opaque
 
     def caller_key(self, call, mname, closed=False):
         """Key probed / written by a results call, in caller terms: (S, D, F, P, prefix, suffix) canonical strings.
@@ -1097,21 +1319,29 @@ def analyse_fit_predict(ctx, repo, flow, roles, method="fit_predict", FLAGS=FLAG
     in_body, _ = simulate(g, body_starts, {header.id}, lambda n: None)
     stores, fits, registers = {}, [], []
     base_pred = name_pred("_append_key")
+    site_list, opaque_helpers = cons.store_sites()
+    for call, m, closed, helper in site_list:
+        node = g.node_of(call)
+        if node is None or node.id not in in_body:
+            continue
+        key = cons.caller_key(closed, m, closed=True)
+        kind = None
+        if m == "save_fitted_strategy":
+            kind = "fitted"
+        elif key is not None and key[3] in ("'train'", "'test'"):
+            kind = key[3].strip("'")
+        if kind is None or key is None:
+            ctx.undecided("R2", "%s:store:%s" % (tag, m), "cannot determine which record this call writes", ctx.loc(mod, call))
+            continue
+        stores.setdefault(kind, []).append((call, node, key))
+        if helper is not None:
+            hh = repo.lookup_method(cons.hdd, m)
+            if hh is not None and flow.must_call(hh[1], base_pred, hh[0].module, cons.hdd, hh[0]):
+                registers.append((call, node))
     for call, m in cons.results_calls():
         node = g.node_of(call)
         if node is None or node.id not in in_body:
             continue
-        if m in ("save_predictions", "save_fitted_strategy"):
-            key = cons.caller_key(call, m)
-            kind = None
-            if m == "save_fitted_strategy":
-                kind = "fitted"
-            elif key is not None and key[3] in ("'train'", "'test'"):
-                kind = key[3].strip("'")
-            if kind is None or key is None:
-                ctx.undecided("R2", "%s:store:%s" % (tag, m), "cannot determine which record this call writes", ctx.loc(mod, call))
-                continue
-            stores.setdefault(kind, []).append((call, node, key))
         reg = m == "_append_key"
         for k in (cons.hdd,):
             h = repo.lookup_method(k, m)
@@ -1171,14 +1401,7 @@ def analyse_fit_predict(ctx, repo, flow, roles, method="fit_predict", FLAGS=FLAG
         for fl in (en, ow):
             if fl is not None and ("flag", fl) not in keys:
                 keys.append(("flag", fl))
-    hidden = []
-    for c in astq.calls(fn):
-        node = g.node_of(c)
-        if self_call(c) and node is not None and node.id in in_body:
-            h = repo.lookup_method(cls, c.func.attr)
-            if h is not None and any(isinstance(n, ast.Attribute) and n.attr in ("save_predictions", "save_fitted_strategy")
-                                     for n in ast.walk(h[1])):
-                hidden.append(c.func.attr)
+    hidden = list(opaque_helpers)  # helpers that store records but could not be inlined (conditional store, star arguments)
     for kind in FLAGS:
         if kind not in stores:
             if hidden:
@@ -1357,16 +1580,16 @@ def consumer_R4(ctx, repo, cons):
             if "data" in b:
                 check_slice_of(ctx, tag + ":fit:data", cons.sub(b["data"], c), "R_train_idx", "training data of fit", loc)
     # stored records
-    for call, m in cons.results_calls():
+    for call, m, closed, helper in cons.store_sites()[0]:
         node = g.node_of(call)
-        if node is None or node.id not in in_body or m not in ("save_predictions", "save_fitted_strategy"):
+        if node is None or node.id not in in_body:
             continue
         h = repo.lookup_method(cons.hdd, m)
-        b = astq.bind_call(h[1], call, skip_self=True) if h else None
+        b = astq.bind_call(h[1], closed, skip_self=True) if h else None
         if b is None or any(k in b for k in ("*", "**", "!unknown")):
             continue  # reported by the arity rule
         loc = ctx.loc(mod, call)
-        a = {k: cons.sub(v, call) for k, v in b.items() if isinstance(v, ast.AST)}
+        a = {k: v for k, v in b.items() if isinstance(v, ast.AST)}  # already over the roles of the yielded tuple
         if m == "save_fitted_strategy":
             c0 = tag + ":save_fitted"
             if "strategy" in a:
@@ -1386,6 +1609,10 @@ def consumer_R4(ctx, repo, cons):
                     ctx.ok("R4", c0 + ":index", "index = %s" % idx[2:], loc)
                 elif got in ("R_train_idx", "R_test_idx"):
                     ctx.violation("R4", c0 + ":index", "the %s record stores the instance index of the %s rows" % (part, got[2:-4]), loc)
+                elif S.match("R_data.iloc[H_I].index", e) is not None or S.match("R_data.index[H_I]", e) is not None:
+                    ctx.violation("R4", c0 + ":index", "the %s record stores the row *labels* of the predicted rows (%s) instead of their "
+                                  "positions %s: for a data set whose row index is not 0..n-1 the stored instance index is not the fold's"
+                                  % (part, got.replace("R_", ""), idx[2:]), loc)
                 else:
                     ctx.undecided("R4", c0 + ":index", "index = %s" % got[:80], loc)
             X = None
@@ -1598,10 +1825,10 @@ def merge_by_interpretation(ctx, repo, hb, sv):
     m = hb.module
     loc = ctx.loc(m, sv)
     own = {"strategy_names": ["s_new", "s_both", "x_shared"], "dataset_names": ["d_new", "d_both", "x_shared"]}
-    old = {"strategy_names": ["s_both", "s_old"], "dataset_names": ["d_both", "d_old", "x_shared"]}
+    old = {"strategy_names": ["s_both", "s_old"], "dataset_names": ["d_both", "d_old", "x_shared", "d_old2", "d_old3"]}  # lists of different lengths
     for exists in (True, False):
         dumped = []
-        me = _Store(dict({k: list(v) for k, v in own.items()}, path="/res", _path="/res", cv=None))
+        me = _Instance(repo, hb, dict({k: list(v) for k, v in own.items()}, path="/res", _path="/res", cv=None))
         prev = _Store({k: list(v) for k, v in old.items()})
 
         def _dump(interp, args, kwargs, node):
